@@ -18,6 +18,7 @@ Refused (TieBroken): any other statement at those levels, any other shape of the
 import ast
 
 from .pyexpr import TieBroken, find_class, find_func, strip_doc, sha
+from .normalize import parse_file, parse as norm_parse
 
 SRC = 'bobocep/cep/engine/decider/decider.py'
 OUT = 'DeciderFrag.lean'
@@ -358,7 +359,7 @@ def _memorise(cls, src):
     gp = find_func(cls, '_get_pattern')
     gpb = [ast.unparse(x) for x in strip_doc(gp.body)]
     if gpb != ['if phenomenon_name in self._phenomena:\n    for pattern in self._phenomena[phenomenon_name].patterns:\n'
-               '        if pattern.name == pattern_name:\n            return pattern', 'return None']:
+               '        if pattern.name == pattern_name:\n            return pattern', 'return']:
         raise TieBroken('_get_pattern: no longer "first pattern of that name among the named phenomenon\'s own patterns": ' + ' ; '.join(gpb)[:120])
     got = [ast.unparse(x) for x in body[0].body]
     exp = ['for c in completed:\n    self._cache_completed.append(c)', 'for h in halted:\n    self._cache_halted.append(h)']
@@ -378,8 +379,7 @@ def _memorise(cls, src):
 
 
 def translate(repo):
-    src = (repo / SRC).read_text()
-    tree = ast.parse(src)
+    src, tree = parse_file(repo, SRC)
     cls = find_class(tree, 'BoboDecider')
     hashes = {}
     fns = {n: find_func(cls, n) for n in ('on_distributed_update', '_maybe_check_against_cache', 'update', '_process_event',
